@@ -369,4 +369,4 @@ Example C01_source_example :
   let taxon := [[111; 116; 104; 101; 114]; [115; 101; 113; 32; 120]; [118; 101; 99]] in
   wrap_space (join_semi taxon ++ [46]) 12 = [111; 116; 104; 101; 114; 59; 32; 115; 101; 113] ++ joined 10 [[120; 59; 32; 118; 101; 99; 46]] /\
   Forall nosep taxon /\ join_semi taxon <> [].
-Proof. split; [vm_compute; reflexivity|]. split; [repeat constructor; vm_compute; reflexivity|discriminate]. Qed.
+Proof. split; [vm_compute; reflexivity|]. split; [repeat constructor; intros [H [t Ht]]; discriminate|discriminate]. Qed.
